@@ -374,6 +374,10 @@ def _ts_methods():
     C("TreeSequence.genetic_relatedness_matrix", "ts", lambda ts, a: ts.genetic_relatedness_matrix(sample_sets=a[0], windows=a[1], mode=a[2]), [SAMPLE_SETS, WINDOWS, MODE])
     C("TreeSequence.pair_coalescence_counts", "ts", lambda ts, a: ts.pair_coalescence_counts(sample_sets=a[0], indexes=a[1], windows=a[2], time_windows=a[3]),
       [SAMPLE_SETS, INDEXES(2), WINDOWS, Slot(lambda o: "nodes", lambda o: [(v, None) for v in ["nodes", [0, INF], [0, 1, INF], [0, 1], [1, 0], [NAN, INF], [0, NAN], [], [0], [-1, INF], [0, 0, INF], None, 3]], "time_windows")])
+    C("TreeSequence.pair_coalescence_rates/sets", "ts", lambda ts, a: ts.pair_coalescence_rates(np.array([0.0, INF]), sample_sets=a[0], indexes=a[1]),
+      [SAMPLE_SETS, INDEXES(2)])
+    C("TreeSequence.pair_coalescence_quantiles/sets", "ts", lambda ts, a: ts.pair_coalescence_quantiles(np.array([0.5]), sample_sets=a[0], indexes=a[1]),
+      [SAMPLE_SETS, INDEXES(2)])
     C("TreeSequence.pair_coalescence_quantiles", "ts", lambda ts, a: ts.pair_coalescence_quantiles(a[0], windows=a[1]),
       [Slot(lambda o: [0.5], lambda o: [(v, None) for v in [[], [0], [1], [0.5, 0.25], [-1], [2], [NAN], None, "a", [0, 0.5, 1]]], "quantiles"), WINDOWS])
     C("TreeSequence.pair_coalescence_rates", "ts", lambda ts, a: ts.pair_coalescence_rates(a[0], windows=a[1]),
